@@ -4,14 +4,31 @@
    block stream is everything present (raw / unauthenticated) or everything in complete
    authenticated chunks (see the fail-safe encryption layer); these theorems are about the
    loop above it.  Vocabulary: see C02.v and RepairSpec.v. *)
+From MLA Require Import Limit.
 From MLA Require Import Base Stream Blocks Writer Repair RepairSpec RepairPure
   RepairProofs2 RepairProofs5 RepairProofs6 Inst.
 From MLAProps Require C02.
 Open Scope N_scope.
+(* concrete examples: the production value of BINCODE_MAX_DESERIALIZE *)
+Local Notation repairP := (repair (LIM := MLAGen.Src.BINCODE_MAX_DESERIALIZE_prod)).
+Local Notation good_outputP := (good_output (LIM := MLAGen.Src.BINCODE_MAX_DESERIALIZE_prod)).
+(* `repair ... es w_init <> Err EDeser` on a concrete instance, es being the state returned by
+   the (concrete) fs_open of Ho: by evaluation *)
+Ltac prove_ser Ho :=
+  match type of Ho with ?op = (?es, _) =>
+    match goal with |- ?G =>
+      let P := eval pattern es in G in
+      match P with ?F _ =>
+        let Hv := fresh "Hv" in
+        assert (Hv : F (fst op)) by (vm_compute; discriminate);
+        rewrite Ho in Hv; exact Hv
+      end
+    end
+  end.
 
 (* an archive that is not damaged at all: every file recovered completely, nothing
    unfinished, EndOfOriginalArchiveData reported *)
-Theorem C05_repair_intact_complete :
+Theorem C05_repair_intact_complete {LIM : Limit} :
   forall FNMAX CACHE : N, FNMAX < 2 ^ 64 -> 0 < CACHE ->
   forall TS TC TA TE : N,
     TS <> TC /\ TS <> TA /\ TS <> TE /\ TC <> TA /\ TC <> TE /\ TA <> TE ->
@@ -21,6 +38,9 @@ Theorem C05_repair_intact_complete :
   forall (S : Stream) (R : st S -> N -> Prop) (s0 : st S) (fuel : nat),
     In BEnd bl -> Refines S (body TS TC TA TE bl ++ trailer) R -> R s0 0 ->
     (N.to_nat (len (body TS TC TA TE bl ++ trailer)) < fuel)%nat ->
+    (* finalize did not fail with SerializationError: the footer of the repaired archive is
+       within BINCODE_MAX_DESERIALIZE (lim) and the u32 length field *)
+    repair FNMAX CACHE TS TC TA TE H S fuel s0 w_init <> Err EDeser ->
     exists (out : wstate) (obl : list block),
       repair FNMAX CACHE TS TC TA TE H S fuel s0 w_init = Ok (FEndOfData, [], out) /\
       good_output FNMAX TS TC TA TE H out obl /\
@@ -31,7 +51,7 @@ Proof. exact repair_intact_complete. Qed.
 (* a longer prefix never yields fewer bytes: for every name, what is recovered from the
    first n bytes is a prefix of what is recovered from the first m >= n bytes (the two runs
    may use different sources and read sizes) *)
-Theorem C05_repair_monotone :
+Theorem C05_repair_monotone {LIM : Limit} :
   forall FNMAX CACHE : N, FNMAX < 2 ^ 64 -> 0 < CACHE ->
   forall TS TC TA TE : N,
     TS <> TC /\ TS <> TA /\ TS <> TE /\ TC <> TA /\ TC <> TE /\ TA <> TE ->
@@ -43,6 +63,8 @@ Theorem C05_repair_monotone :
     n <= m ->
     Refines S1 (takeN n (body TS TC TA TE bl ++ trailer)) R1 -> R1 s1 0 -> (N.to_nat n < fuel1)%nat ->
     Refines S2 (takeN m (body TS TC TA TE bl ++ trailer)) R2 -> R2 s2 0 -> (N.to_nat m < fuel2)%nat ->
+    repair FNMAX CACHE TS TC TA TE H S1 fuel1 s1 w_init <> Err EDeser ->
+    repair FNMAX CACHE TS TC TA TE H S2 fuel2 s2 w_init <> Err EDeser ->
     exists st1 u1 out1 obl1 st2 u2 out2 obl2,
       repair FNMAX CACHE TS TC TA TE H S1 fuel1 s1 w_init = Ok (st1, u1, out1) /\
       good_output FNMAX TS TC TA TE H out1 obl1 /\
@@ -55,7 +77,7 @@ Proof. exact repair_monotone. Qed.
    archive is exactly the concatenation of its content bytes lying before the cut
    (`present`): nothing present is lost, whatever the position of the cut (in a header, a
    name, a content, a hash) and whatever the sizes of the reads *)
-Theorem C05_repair_max :
+Theorem C05_repair_max {LIM : Limit} :
   forall FNMAX CACHE : N, FNMAX < 2 ^ 64 -> 0 < CACHE ->
   forall TS TC TA TE : N,
     TS <> TC /\ TS <> TA /\ TS <> TE /\ TC <> TA /\ TC <> TE /\ TA <> TE ->
@@ -64,6 +86,7 @@ Theorem C05_repair_max :
     wf_blocks FNMAX H bl -> In BEnd bl \/ trailer = [] ->
   forall (n : N) (S : Stream) (R : st S -> N -> Prop) (s0 : st S) (fuel : nat),
     Refines S (takeN n (body TS TC TA TE bl ++ trailer)) R -> R s0 0 -> (N.to_nat n < fuel)%nat ->
+    repair FNMAX CACHE TS TC TA TE H S fuel s0 w_init <> Err EDeser ->
     exists (status : fstatus) (unfinished : list bytes) (out : wstate) (obl : list block),
       repair FNMAX CACHE TS TC TA TE H S fuel s0 w_init = Ok (status, unfinished, out) /\
       good_output FNMAX TS TC TA TE H out obl /\
@@ -73,7 +96,7 @@ Theorem C05_repair_max :
 Proof. exact repair_max. Qed.
 
 (* the same for any delivered prefix w of the block stream *)
-Theorem C05_repair_max_any_prefix :
+Theorem C05_repair_max_any_prefix {LIM : Limit} :
   forall FNMAX CACHE : N, FNMAX < 2 ^ 64 -> 0 < CACHE ->
   forall TS TC TA TE : N,
     TS <> TC /\ TS <> TA /\ TS <> TE /\ TC <> TA /\ TC <> TE /\ TA <> TE ->
@@ -83,6 +106,7 @@ Theorem C05_repair_max_any_prefix :
     wf_blocks FNMAX H bl -> In BEnd bl \/ trailer = [] ->
     prefix w (body TS TC TA TE bl ++ trailer) ->
   forall s0 : st S, R s0 0 -> forall fuel : nat, (N.to_nat (len w) < fuel)%nat ->
+    repair FNMAX CACHE TS TC TA TE H S fuel s0 w_init <> Err EDeser ->
     exists (status : fstatus) (unfinished : list bytes) (out : wstate) (obl : list block),
       repair FNMAX CACHE TS TC TA TE H S fuel s0 w_init = Ok (status, unfinished, out) /\
       good_output FNMAX TS TC TA TE H out obl /\
@@ -102,13 +126,14 @@ Proof. vm_compute. repeat split; reflexivity. Qed.
 (* the intact archive through a source that returns at most 3 bytes per read *)
 Example C05_example_intact :
   exists out obl,
-    repair 48 4 0 1 254 255 ex_H (Throttled ex_stream) 200 (0, [3]) w_init = Ok (FEndOfData, [], out) /\
+    repairP 48 4 0 1 254 255 ex_H (Throttled ex_stream) 200 (0, [3]) w_init = Ok (FEndOfData, [], out) /\
     Forall2 same (files_of ex_bl) (files_of obl).
 Proof.
-  destruct (C05_repair_intact_complete 48 4 ltac:(lia) ltac:(lia) 0 1 254 255
+  destruct (C05_repair_intact_complete (LIM := MLAGen.Src.BINCODE_MAX_DESERIALIZE_prod) 48 4 ltac:(lia) ltac:(lia) 0 1 254 255
               ltac:(repeat split; discriminate) ex_H ex_H_len ex_bl ex_trailer C02_example_wf
               (or_introl ex_bl_end) (Throttled ex_stream) _ (0, [3]) 200%nat ex_bl_end
-              (throttled_refines _) ltac:(split; [reflexivity | apply N.le_0_l]) ltac:(vm_compute; lia))
+              (throttled_refines _) ltac:(split; [reflexivity | apply N.le_0_l]) ltac:(vm_compute; lia)
+              ltac:(vm_compute; discriminate))
     as (out & obl & Hr & _ & Hs & _).
   exists out, obl. split; [exact Hr | exact Hs].
 Qed.
@@ -116,7 +141,7 @@ Qed.
 (* the 6 + 6 content bytes come out in pieces of CACHE = 4 bytes: the repaired stream of the
    intact archive differs from the original but describes the same files *)
 Example C05_example_values :
-  match repair 48 4 0 1 254 255 ex_H (Throttled ex_stream) 200 (0, [3]) w_init with
+  match repairP 48 4 0 1 254 255 ex_H (Throttled ex_stream) 200 (0, [3]) w_init with
   | Ok (status, unfinished, out) =>
       status = FEndOfData /\ unfinished = [] /\ w_files out = [([97], 0); ([98], 1)] /\
       takeN 58 (w_out out) = body 0 1 254 255 [BStart 0 [97]; BContent 0 [1;2;3;4]; BContent 0 [5;6]]
@@ -141,7 +166,7 @@ Print Assumptions C05_example_values.
 From MLA Require Import EncLayer EncAuth EncAuthFs EncAuthTrunc EncWriter Run ComposeRdOnly ComposeRepair ComposeRepairMono.
 
 (* the undamaged wire, both modes: every file completely recovered *)
-Theorem C05_repair_encrypted_intact_complete :
+Theorem C05_repair_encrypted_intact_complete {LIM : Limit} :
   forall FNMAX CACHE : N, FNMAX < 2 ^ 64 -> 0 < CACHE ->
   forall TS TC TA TE : N,
     TS <> TC /\ TS <> TA /\ TS <> TE /\ TC <> TA /\ TC <> TE /\ TA <> TE ->
@@ -159,17 +184,21 @@ Theorem C05_repair_encrypted_intact_complete :
     In BEnd bl -> (N.to_nat (len (body TS TC TA TE bl ++ trailer) + TAG) < fuel)%nat ->
     exists es b,
       fs_open CHUNK TAG ks (Cursor (ew_out s)) 0 = (es, Ok b) /\
+    (* finalize did not fail with SerializationError: the footer of the repaired archive is
+       within BINCODE_MAX_DESERIALIZE (lim) and the u32 length field *)
+    (repair FNMAX CACHE TS TC TA TE H (FsEnc CHUNK TAG ks tagc unauth (Cursor (ew_out s))) fuel es w_init
+       <> Err EDeser ->
     exists (out : wstate) (obl : list block),
       repair FNMAX CACHE TS TC TA TE H (FsEnc CHUNK TAG ks tagc unauth (Cursor (ew_out s))) fuel es w_init
         = Ok (FEndOfData, [], out) /\
       good_output FNMAX TS TC TA TE H out obl /\
       Forall2 same (files_of bl) (files_of obl) /\
-      (forall f, In f (files_of bl) -> f_ended f = true).
+      (forall f, In f (files_of bl) -> f_ended f = true)).
 Proof. exact repair_encrypted_intact_complete. Qed.
 
 (* every cut of the wire: for every file, exactly its content bytes lying in what the
    decryptor delivers (`fs_output`: auth_out / unauth_out of EncAuthFs.v, C04) are recovered *)
-Theorem C05_repair_encrypted_max :
+Theorem C05_repair_encrypted_max {LIM : Limit} :
   forall FNMAX CACHE : N, FNMAX < 2 ^ 64 -> 0 < CACHE ->
   forall TS TC TA TE : N,
     TS <> TC /\ TS <> TA /\ TS <> TE /\ TC <> TA /\ TC <> TE /\ TA <> TE ->
@@ -187,13 +216,15 @@ Theorem C05_repair_encrypted_max :
     (N.to_nat (len (body TS TC TA TE bl ++ trailer) + TAG) < fuel)%nat ->
     exists es b,
       fs_open CHUNK TAG ks (Cursor (takeN n (ew_out s))) 0 = (es, Ok b) /\
+    (repair FNMAX CACHE TS TC TA TE H (FsEnc CHUNK TAG ks tagc unauth (Cursor (takeN n (ew_out s))))
+            fuel es w_init <> Err EDeser ->
     exists (status : fstatus) (unfinished : list bytes) (out : wstate) (obl : list block),
       repair FNMAX CACHE TS TC TA TE H (FsEnc CHUNK TAG ks tagc unauth (Cursor (takeN n (ew_out s))))
              fuel es w_init = Ok (status, unfinished, out) /\
       good_output FNMAX TS TC TA TE H out obl /\
       (forall f, In f (files_of bl) ->
          content_of (files_of obl) (f_name f) =
-         present (f_id f) bl (len (fs_output CHUNK TAG ks tagc unauth (takeN n (ew_out s))))).
+         present (f_id f) bl (len (fs_output CHUNK TAG ks tagc unauth (takeN n (ew_out s)))))).
 Proof. exact repair_encrypted_max. Qed.
 
 (* a longer cut never yields less — FULL statement, no assumption on the tag function.  For
@@ -210,7 +241,7 @@ Proof. exact repair_encrypted_max. Qed.
    it with a weak tag function).  The excluded pair is not monotone for a plain reason: the
    unauthenticated mode delivers the bytes of a cut chunk, the authenticated mode does not
    (C05_example_unauth_then_auth_not_monotone). *)
-Theorem C05_repair_encrypted_monotone :
+Theorem C05_repair_encrypted_monotone {LIM : Limit} :
   forall FNMAX CACHE : N, FNMAX < 2 ^ 64 -> 0 < CACHE ->
   forall TS TC TA TE : N,
     TS <> TC /\ TS <> TA /\ TS <> TE /\ TC <> TA /\ TC <> TE /\ TA <> TE ->
@@ -231,6 +262,10 @@ Theorem C05_repair_encrypted_monotone :
     exists es1 b1 es2 b2,
       fs_open CHUNK TAG ks (Cursor (takeN n (ew_out s))) 0 = (es1, Ok b1) /\
       fs_open CHUNK TAG ks (Cursor (takeN m (ew_out s))) 0 = (es2, Ok b2) /\
+    (repair FNMAX CACHE TS TC TA TE H (FsEnc CHUNK TAG ks tagc u1 (Cursor (takeN n (ew_out s))))
+            fuel1 es1 w_init <> Err EDeser ->
+     repair FNMAX CACHE TS TC TA TE H (FsEnc CHUNK TAG ks tagc u2 (Cursor (takeN m (ew_out s))))
+            fuel2 es2 w_init <> Err EDeser ->
     exists st1 un1 out1 obl1 st2 un2 out2 obl2,
       repair FNMAX CACHE TS TC TA TE H (FsEnc CHUNK TAG ks tagc u1 (Cursor (takeN n (ew_out s))))
              fuel1 es1 w_init = Ok (st1, un1, out1) /\
@@ -239,7 +274,7 @@ Theorem C05_repair_encrypted_monotone :
              fuel2 es2 w_init = Ok (st2, un2, out2) /\
       good_output FNMAX TS TC TA TE H out2 obl2 /\
       ((forall name, prefix (content_of (files_of obl1) name) (content_of (files_of obl2) name)) \/
-       Forgery CHUNK TAG ks tagc (takeN n (ew_out s)) (body TS TC TA TE bl ++ trailer)).
+       Forgery CHUNK TAG ks tagc (takeN n (ew_out s)) (body TS TC TA TE bl ++ trailer))).
 Proof. exact repair_encrypted_monotone_full. Qed.
 
 (* the layer fact behind it: on truncations of an unaltered encrypted stream the
@@ -254,7 +289,7 @@ Theorem C05_auth_output_monotone_or_forgery :
 Proof. exact fs_auth_cut_mono. Qed.
 
 (* second run unauthenticated (first in either mode): no disjunct at all *)
-Theorem C05_repair_encrypted_monotone_unauth :
+Theorem C05_repair_encrypted_monotone_unauth {LIM : Limit} :
   forall FNMAX CACHE : N, FNMAX < 2 ^ 64 -> 0 < CACHE ->
   forall TS TC TA TE : N,
     TS <> TC /\ TS <> TA /\ TS <> TE /\ TC <> TA /\ TC <> TE /\ TA <> TE ->
@@ -275,6 +310,10 @@ Theorem C05_repair_encrypted_monotone_unauth :
     exists es1 b1 es2 b2,
       fs_open CHUNK TAG ks (Cursor (takeN n (ew_out s))) 0 = (es1, Ok b1) /\
       fs_open CHUNK TAG ks (Cursor (takeN m (ew_out s))) 0 = (es2, Ok b2) /\
+    (repair FNMAX CACHE TS TC TA TE H (FsEnc CHUNK TAG ks tagc u1 (Cursor (takeN n (ew_out s))))
+            fuel1 es1 w_init <> Err EDeser ->
+     repair FNMAX CACHE TS TC TA TE H (FsEnc CHUNK TAG ks tagc true (Cursor (takeN m (ew_out s))))
+            fuel2 es2 w_init <> Err EDeser ->
     exists st1 un1 out1 obl1 st2 un2 out2 obl2,
       repair FNMAX CACHE TS TC TA TE H (FsEnc CHUNK TAG ks tagc u1 (Cursor (takeN n (ew_out s))))
              fuel1 es1 w_init = Ok (st1, un1, out1) /\
@@ -282,24 +321,25 @@ Theorem C05_repair_encrypted_monotone_unauth :
       repair FNMAX CACHE TS TC TA TE H (FsEnc CHUNK TAG ks tagc true (Cursor (takeN m (ew_out s))))
              fuel2 es2 w_init = Ok (st2, un2, out2) /\
       good_output FNMAX TS TC TA TE H out2 obl2 /\
-      forall name, prefix (content_of (files_of obl1) name) (content_of (files_of obl2) name).
+      forall name, prefix (content_of (files_of obl1) name) (content_of (files_of obl2) name)).
 Proof. exact repair_encrypted_monotone. Qed.
 
 (* non-vacuity: the encrypted example archive of C02.v, uncut, both modes *)
 Example C05_example_encrypted_intact : forall unauth : bool,
   exists es b out obl,
     fs_open 32 4 toy_ks (Cursor (ew_out C02.ex_ew)) 0 = (es, Ok b) /\
-    repair 48 4 0 1 254 255 ex_H (FsEnc 32 4 toy_ks (toy_tag 4) unauth (Cursor (ew_out C02.ex_ew)))
+    repairP 48 4 0 1 254 255 ex_H (FsEnc 32 4 toy_ks (toy_tag 4) unauth (Cursor (ew_out C02.ex_ew)))
            300 es w_init = Ok (FEndOfData, [], out) /\
     Forall2 same (files_of ex_bl) (files_of obl).
 Proof.
   intros unauth.
-  destruct (C05_repair_encrypted_intact_complete 48 4 ltac:(lia) ltac:(lia) 0 1 254 255
+  destruct (C05_repair_encrypted_intact_complete (LIM := MLAGen.Src.BINCODE_MAX_DESERIALIZE_prod) 48 4 ltac:(lia) ltac:(lia) 0 1 254 255
               ltac:(repeat split; discriminate) ex_H ex_H_len 32 4 8 ltac:(lia) ltac:(lia)
               toy_ks (toy_tag 4) (len_toy_tag 4) ex_bl ex_trailer C02_example_wf
               (or_introl ex_bl_end) C02.ex_pieces C02.ex_pieces_ok 200%nat C02.ex_ew C02.ex_ew_ok
               ltac:(vm_compute; discriminate) unauth 300%nat ex_bl_end ltac:(vm_compute; lia))
-    as (es & b & Ho & out & obl & Hr & _ & Hs & _).
+    as (es & b & Ho & Hcon).
+  destruct (Hcon ltac:(destruct unauth; prove_ser Ho)) as (out & obl & Hr & _ & Hs & _).
   exists es, b, out, obl. auto.
 Qed.
 
@@ -309,22 +349,24 @@ Example C05_example_encrypted_monotone_auth_auth :
   exists es1 b1 es2 b2 st1 un1 out1 obl1 st2 un2 out2 obl2,
     fs_open 32 4 toy_ks (Cursor (takeN 100 (ew_out C02.ex_ew))) 0 = (es1, Ok b1) /\
     fs_open 32 4 toy_ks (Cursor (takeN 140 (ew_out C02.ex_ew))) 0 = (es2, Ok b2) /\
-    repair 48 4 0 1 254 255 ex_H (FsEnc 32 4 toy_ks (toy_tag 4) false (Cursor (takeN 100 (ew_out C02.ex_ew))))
+    repairP 48 4 0 1 254 255 ex_H (FsEnc 32 4 toy_ks (toy_tag 4) false (Cursor (takeN 100 (ew_out C02.ex_ew))))
            300 es1 w_init = Ok (st1, un1, out1) /\
-    good_output 48 0 1 254 255 ex_H out1 obl1 /\
-    repair 48 4 0 1 254 255 ex_H (FsEnc 32 4 toy_ks (toy_tag 4) false (Cursor (takeN 140 (ew_out C02.ex_ew))))
+    good_outputP 48 0 1 254 255 ex_H out1 obl1 /\
+    repairP 48 4 0 1 254 255 ex_H (FsEnc 32 4 toy_ks (toy_tag 4) false (Cursor (takeN 140 (ew_out C02.ex_ew))))
            300 es2 w_init = Ok (st2, un2, out2) /\
-    good_output 48 0 1 254 255 ex_H out2 obl2 /\
+    good_outputP 48 0 1 254 255 ex_H out2 obl2 /\
     ((forall name, prefix (content_of (files_of obl1) name) (content_of (files_of obl2) name)) \/
      Forgery 32 4 toy_ks (toy_tag 4) (takeN 100 (ew_out C02.ex_ew)) (body 0 1 254 255 ex_bl ++ ex_trailer)).
 Proof.
-  destruct (C05_repair_encrypted_monotone 48 4 ltac:(lia) ltac:(lia) 0 1 254 255
+  destruct (C05_repair_encrypted_monotone (LIM := MLAGen.Src.BINCODE_MAX_DESERIALIZE_prod) 48 4 ltac:(lia) ltac:(lia) 0 1 254 255
               ltac:(repeat split; discriminate) ex_H ex_H_len 32 4 8 ltac:(lia) ltac:(lia)
               toy_ks (toy_tag 4) (len_toy_tag 4) ex_bl ex_trailer C02_example_wf
               (or_introl ex_bl_end) C02.ex_pieces C02.ex_pieces_ok 200%nat C02.ex_ew C02.ex_ew_ok
               ltac:(vm_compute; discriminate) 100 140 false false 300%nat 300%nat ltac:(lia)
               ltac:(discriminate) ltac:(vm_compute; lia) ltac:(vm_compute; lia))
-    as (es1 & b1 & es2 & b2 & Ho1 & Ho2 & st1 & un1 & out1 & obl1 & st2 & un2 & out2 & obl2 & R).
+    as (es1 & b1 & es2 & b2 & Ho1 & Ho2 & Hcon).
+  destruct (Hcon ltac:(prove_ser Ho1) ltac:(prove_ser Ho2))
+    as (st1 & un1 & out1 & obl1 & st2 & un2 & out2 & obl2 & R).
   destruct R as (R1 & R2 & R3 & R4 & R5).
   exists es1, b1, es2, b2, st1, un1, out1, obl1, st2, un2, out2, obl2.
   split; [exact Ho1|]. split; [exact Ho2|]. split; [exact R1|]. split; [exact R2|]. split; [exact R3|]. split; [exact R4|]. exact R5.
@@ -345,25 +387,25 @@ Example C05_example_auth_auth_forgery_disjunct_needed :
   (exists es1 b1 es2 b2 st1 un1 out1 obl1 st2 un2 out2 obl2,
     fs_open 32 1 toy_ks (Cursor (takeN 40 (ew_out ex_weak_ew))) 0 = (es1, Ok b1) /\
     fs_open 32 1 toy_ks (Cursor (takeN 41 (ew_out ex_weak_ew))) 0 = (es2, Ok b2) /\
-    repair 48 4 0 1 254 255 ex_H (FsEnc 32 1 toy_ks ex_weak_tag false (Cursor (takeN 40 (ew_out ex_weak_ew))))
+    repairP 48 4 0 1 254 255 ex_H (FsEnc 32 1 toy_ks ex_weak_tag false (Cursor (takeN 40 (ew_out ex_weak_ew))))
            300 es1 w_init = Ok (st1, un1, out1) /\
-    good_output 48 0 1 254 255 ex_H out1 obl1 /\
-    repair 48 4 0 1 254 255 ex_H (FsEnc 32 1 toy_ks ex_weak_tag false (Cursor (takeN 41 (ew_out ex_weak_ew))))
+    good_outputP 48 0 1 254 255 ex_H out1 obl1 /\
+    repairP 48 4 0 1 254 255 ex_H (FsEnc 32 1 toy_ks ex_weak_tag false (Cursor (takeN 41 (ew_out ex_weak_ew))))
            300 es2 w_init = Ok (st2, un2, out2) /\
-    good_output 48 0 1 254 255 ex_H out2 obl2 /\
+    good_outputP 48 0 1 254 255 ex_H out2 obl2 /\
     content_of (files_of obl1) [97] = [1; 2; 3] /\ content_of (files_of obl2) [97] = []) /\
   Forgery 32 1 toy_ks ex_weak_tag (takeN 40 (ew_out ex_weak_ew)) (body 0 1 254 255 ex_bl ++ ex_trailer).
 Proof.
   split.
-  - pose proof (C05_repair_encrypted_max 48 4 ltac:(lia) ltac:(lia) 0 1 254 255
+  - pose proof (C05_repair_encrypted_max (LIM := MLAGen.Src.BINCODE_MAX_DESERIALIZE_prod) 48 4 ltac:(lia) ltac:(lia) 0 1 254 255
               ltac:(repeat split; discriminate) ex_H ex_H_len 32 1 8 ltac:(lia) ltac:(lia)
               toy_ks ex_weak_tag ltac:(reflexivity) ex_bl ex_trailer C02_example_wf
               (or_introl ex_bl_end) C02.ex_pieces C02.ex_pieces_ok 200%nat ex_weak_ew ex_weak_ew_ok
               ltac:(vm_compute; discriminate)) as Hmax.
-    destruct (Hmax 40 false 300%nat ltac:(vm_compute; lia))
-      as (es1 & b1 & Ho1 & st1 & un1 & out1 & obl1 & Hr1 & Hg1 & Hc1).
-    destruct (Hmax 41 false 300%nat ltac:(vm_compute; lia))
-      as (es2 & b2 & Ho2 & st2 & un2 & out2 & obl2 & Hr2 & Hg2 & Hc2).
+    destruct (Hmax 40 false 300%nat ltac:(vm_compute; lia)) as (es1 & b1 & Ho1 & Hcon1).
+    destruct (Hcon1 ltac:(prove_ser Ho1)) as (st1 & un1 & out1 & obl1 & Hr1 & Hg1 & Hc1).
+    destruct (Hmax 41 false 300%nat ltac:(vm_compute; lia)) as (es2 & b2 & Ho2 & Hcon2).
+    destruct (Hcon2 ltac:(prove_ser Ho2)) as (st2 & un2 & out2 & obl2 & Hr2 & Hg2 & Hc2).
     exists es1, b1, es2, b2, st1, un1, out1, obl1, st2, un2, out2, obl2.
     split; [exact Ho1|]. split; [exact Ho2|]. split; [exact Hr1|]. split; [exact Hg1|]. split; [exact Hr2|]. split; [exact Hg2|]. split.
     + pose proof (Hc1 (mkF 7 [97] [1;2;3;4;5;6] true) ltac:(vm_compute; auto)) as E. cbn [f_name f_id] in E. rewrite E. vm_compute. reflexivity.
@@ -382,23 +424,23 @@ Qed.
 Example C05_example_unauth_then_auth_not_monotone :
   exists es b st1 un1 out1 obl1 st2 un2 out2 obl2,
     fs_open 32 4 toy_ks (Cursor (takeN 46 (ew_out C02.ex_ew))) 0 = (es, Ok b) /\
-    repair 48 4 0 1 254 255 ex_H (FsEnc 32 4 toy_ks (toy_tag 4) true (Cursor (takeN 46 (ew_out C02.ex_ew))))
+    repairP 48 4 0 1 254 255 ex_H (FsEnc 32 4 toy_ks (toy_tag 4) true (Cursor (takeN 46 (ew_out C02.ex_ew))))
            300 es w_init = Ok (st1, un1, out1) /\
-    good_output 48 0 1 254 255 ex_H out1 obl1 /\
-    repair 48 4 0 1 254 255 ex_H (FsEnc 32 4 toy_ks (toy_tag 4) false (Cursor (takeN 46 (ew_out C02.ex_ew))))
+    good_outputP 48 0 1 254 255 ex_H out1 obl1 /\
+    repairP 48 4 0 1 254 255 ex_H (FsEnc 32 4 toy_ks (toy_tag 4) false (Cursor (takeN 46 (ew_out C02.ex_ew))))
            300 es w_init = Ok (st2, un2, out2) /\
-    good_output 48 0 1 254 255 ex_H out2 obl2 /\
+    good_outputP 48 0 1 254 255 ex_H out2 obl2 /\
     content_of (files_of obl1) [97] = [1; 2; 3; 4; 5; 6] /\ content_of (files_of obl2) [97] = [].
 Proof.
-  pose proof (C05_repair_encrypted_max 48 4 ltac:(lia) ltac:(lia) 0 1 254 255
+  pose proof (C05_repair_encrypted_max (LIM := MLAGen.Src.BINCODE_MAX_DESERIALIZE_prod) 48 4 ltac:(lia) ltac:(lia) 0 1 254 255
               ltac:(repeat split; discriminate) ex_H ex_H_len 32 4 8 ltac:(lia) ltac:(lia)
               toy_ks (toy_tag 4) (len_toy_tag 4) ex_bl ex_trailer C02_example_wf
               (or_introl ex_bl_end) C02.ex_pieces C02.ex_pieces_ok 200%nat C02.ex_ew C02.ex_ew_ok
               ltac:(vm_compute; discriminate)) as Hmax.
-  destruct (Hmax 46 true 300%nat ltac:(vm_compute; lia))
-    as (es1 & b1 & Ho1 & st1 & un1 & out1 & obl1 & Hr1 & Hg1 & Hc1).
-  destruct (Hmax 46 false 300%nat ltac:(vm_compute; lia))
-    as (es2 & b2 & Ho2 & st2 & un2 & out2 & obl2 & Hr2 & Hg2 & Hc2).
+  destruct (Hmax 46 true 300%nat ltac:(vm_compute; lia)) as (es1 & b1 & Ho1 & Hcon1).
+  destruct (Hcon1 ltac:(prove_ser Ho1)) as (st1 & un1 & out1 & obl1 & Hr1 & Hg1 & Hc1).
+  destruct (Hmax 46 false 300%nat ltac:(vm_compute; lia)) as (es2 & b2 & Ho2 & Hcon2).
+  destruct (Hcon2 ltac:(prove_ser Ho2)) as (st2 & un2 & out2 & obl2 & Hr2 & Hg2 & Hc2).
   rewrite Ho1 in Ho2. pose proof (f_equal fst Ho2) as Ee. cbn [fst] in Ee. subst es2. clear Ho2.
   exists es1, b1, st1, un1, out1, obl1, st2, un2, out2, obl2.
   split; [exact Ho1|]. split; [exact Hr1|]. split; [exact Hg1|]. split; [exact Hr2|]. split; [exact Hg2|]. split.
@@ -470,8 +512,8 @@ Print Assumptions C05_fs_comp_example.
    translated from /repo on every run is simulated by Repair.repair for every source, fuel and writer state ---------- *)
 From MLA Require SrcTie3Repair SrcTie3RepairLoop.
 Check SrcTie3RepairLoop.convert_to_archive_sim.
-Theorem C05_tie_convert_to_archive_sim : ltac:(let t := type of SrcTie3RepairLoop.convert_to_archive_sim in exact t).
-Proof. exact SrcTie3RepairLoop.convert_to_archive_sim. Qed.
+Theorem C05_tie_convert_to_archive_sim : ltac:(let t := type of @SrcTie3RepairLoop.convert_to_archive_sim in exact t).
+Proof. exact (@SrcTie3RepairLoop.convert_to_archive_sim). Qed.
 Print Assumptions C05_tie_convert_to_archive_sim.
 
 (* ================= work package `carry`: C05 about the GENERATED convert_to_archive =================
@@ -483,7 +525,7 @@ Import SrcTie2 SrcTie3Repair SrcTie3RepairLoop CarryRepair.
 
 (* an undamaged archive: the translated function returns Ok, its value reads as
    EndOfOriginalArchiveData with nothing unfinished, and the output holds every file completely *)
-Theorem C05_repair_intact_complete_src :
+Theorem C05_repair_intact_complete_src {LIM : Limit} :
   forall FNMAX CACHE : N, FNMAX < 2 ^ 64 -> 0 < CACHE ->
   forall TS TC TA TE : N,
     TS <> TC /\ TS <> TA /\ TS <> TE /\ TC <> TA /\ TC <> TE /\ TA <> TE ->
@@ -494,6 +536,10 @@ Theorem C05_repair_intact_complete_src :
     RdBounded S ->
     In BEnd bl -> Refines S (body TS TC TA TE bl ++ trailer) R -> R s0 0 ->
     (N.to_nat (len (body TS TC TA TE bl ++ trailer)) < fuel)%nat ->
+    (* the translated function did not fail with SerializationError: the footer of the repaired
+       archive is within BINCODE_MAX_DESERIALIZE (lim) and the u32 length field *)
+    snd (Src3r.convert_to_archive FNMAX CACHE TS TC TA TE H (footer_ser (fun f => f)) (fun _ => Ok tt) S
+           (block_from FNMAX TS TC TA TE S) fuel s0 aw_init) <> Err EDeser ->
     exists (l : Src3r.Locals S) (e : Src3r.FailSafeReadError) (obl : list block),
       Src3r.convert_to_archive FNMAX CACHE TS TC TA TE H (footer_ser (fun f => f)) (fun _ => Ok tt) S
         (block_from FNMAX TS TC TA TE S) fuel s0 aw_init = (l, Ok e) /\
@@ -505,7 +551,7 @@ Proof. exact repair_intact_complete_src. Qed.
 
 (* nothing present before the cut is lost: for every file of the original, the content under its name
    in the output of the translated function is exactly its content bytes lying before the cut *)
-Theorem C05_repair_max_src :
+Theorem C05_repair_max_src {LIM : Limit} :
   forall FNMAX CACHE : N, FNMAX < 2 ^ 64 -> 0 < CACHE ->
   forall TS TC TA TE : N,
     TS <> TC /\ TS <> TA /\ TS <> TE /\ TC <> TA /\ TC <> TE /\ TA <> TE ->
@@ -515,6 +561,10 @@ Theorem C05_repair_max_src :
   forall (n : N) (S : Stream) (R : st S -> N -> Prop) (s0 : st S) (fuel : nat),
     RdBounded S ->
     Refines S (takeN n (body TS TC TA TE bl ++ trailer)) R -> R s0 0 -> (N.to_nat n < fuel)%nat ->
+    (* the translated function did not fail with SerializationError: the footer of the repaired
+       archive is within BINCODE_MAX_DESERIALIZE (lim) and the u32 length field *)
+    snd (Src3r.convert_to_archive FNMAX CACHE TS TC TA TE H (footer_ser (fun f => f)) (fun _ => Ok tt) S
+           (block_from FNMAX TS TC TA TE S) fuel s0 aw_init) <> Err EDeser ->
     exists (l : Src3r.Locals S) (e : Src3r.FailSafeReadError) (obl : list block),
       Src3r.convert_to_archive FNMAX CACHE TS TC TA TE H (footer_ser (fun f => f)) (fun _ => Ok tt) S
         (block_from FNMAX TS TC TA TE S) fuel s0 aw_init = (l, Ok e) /\
@@ -523,15 +573,15 @@ Theorem C05_repair_max_src :
          content_of (files_of obl) (RepairSpec.f_name f) =
          present (RepairSpec.f_id f) bl (N.min n (len (body TS TC TA TE bl ++ trailer)))).
 Proof. exact repair_max_src. Qed.
-Theorem C05_repair_max_any_prefix_src : ltac:(let t := type of repair_max_any_prefix_src in exact t).
-Proof. exact repair_max_any_prefix_src. Qed.
-Theorem C05_repair_intact_complete_throttled_src : ltac:(let t := type of repair_intact_complete_throttled_src in exact t).
-Proof. exact repair_intact_complete_throttled_src. Qed.
+Theorem C05_repair_max_any_prefix_src : ltac:(let t := type of @repair_max_any_prefix_src in exact t).
+Proof. exact (@repair_max_any_prefix_src). Qed.
+Theorem C05_repair_intact_complete_throttled_src : ltac:(let t := type of @repair_intact_complete_throttled_src in exact t).
+Proof. exact (@repair_intact_complete_throttled_src). Qed.
 
 (* non-vacuity THROUGH THE GENERATED CODE: the intact archive of C05_example_intact through a source
    returning at most 3 bytes per read *)
 Example C05_example_intact_src :
-  match Src3r.convert_to_archive 48 4 0 1 254 255 ex_H (footer_ser (fun f => f)) (fun _ => Ok tt)
+  match Src3r.convert_to_archive 48 4 0 1 254 255 ex_H (footer_ser (LIM := MLAGen.Src.BINCODE_MAX_DESERIALIZE_prod) (fun f => f)) (fun _ => Ok tt)
           (Throttled ex_stream) (block_from 48 0 1 254 255 (Throttled ex_stream)) 200 (0, [3]) aw_init with
   | (l, Ok e) => e = Src3r.EndOfOriginalArchiveData /\
                  w_files (absW (Src3r.l_output _ l)) = [([97], 0); ([98], 1)] /\
@@ -542,14 +592,15 @@ Example C05_example_intact_src :
 Proof. vm_compute. repeat split; reflexivity. Qed.
 Example C05_example_intact_src_premises :
   exists l e obl,
-    Src3r.convert_to_archive 48 4 0 1 254 255 ex_H (footer_ser (fun f => f)) (fun _ => Ok tt)
+    Src3r.convert_to_archive 48 4 0 1 254 255 ex_H (footer_ser (LIM := MLAGen.Src.BINCODE_MAX_DESERIALIZE_prod) (fun f => f)) (fun _ => Ok tt)
       (Throttled ex_stream) (block_from 48 0 1 254 255 (Throttled ex_stream)) 200 (0, [3]) aw_init = (l, Ok e) /\
     status_of e = (FEndOfData, []) /\ Forall2 same (files_of ex_bl) (files_of obl).
 Proof.
-  destruct (C05_repair_intact_complete_src 48 4 ltac:(lia) ltac:(lia) 0 1 254 255
+  destruct (C05_repair_intact_complete_src (LIM := MLAGen.Src.BINCODE_MAX_DESERIALIZE_prod) 48 4 ltac:(lia) ltac:(lia) 0 1 254 255
               ltac:(repeat split; discriminate) ex_H ex_H_len ex_bl ex_trailer C02_example_wf
               (or_introl ex_bl_end) (Throttled ex_stream) _ (0, [3]) 200%nat (RdBounded_throttled _) ex_bl_end
-              (throttled_refines _) ltac:(split; [reflexivity | apply N.le_0_l]) ltac:(vm_compute; lia))
+              (throttled_refines _) ltac:(split; [reflexivity | apply N.le_0_l]) ltac:(vm_compute; lia)
+              ltac:(vm_compute; discriminate))
     as (l & e & obl & Hg & Hst & _ & Hs & _).
   exists l, e, obl. auto.
 Qed.
